@@ -14,11 +14,20 @@ type ControlChans struct {
 }
 
 type pauseManager struct {
-	subscribers sync.Map // Map of *ControlChans to struct{}
-	isPaused    atomic.Bool
-	isResuming  atomic.Bool
+	subscribers sync.Map     // Map of *ControlChans to struct{}
+	state       atomic.Int32 // stateRunning, statePaused or stateResuming
 	message     string
 }
+
+// The manager is running, paused, or paused with one Resume() collecting the acknowledgements.
+// Every transition is a single compare-and-swap, so calls that do not match the current state
+// (a second Pause, an unmatched or concurrent Resume) return at once instead of waiting for
+// messages nobody will send.
+const (
+	stateRunning int32 = iota
+	statePaused
+	stateResuming
+)
 
 var manager = &pauseManager{}
 
@@ -48,7 +57,7 @@ func Unsubscribe(chans *ControlChans) {
 // Pause sends a pause signal to all subscribers.
 func Pause(message ...string) {
 	verifhook.At("pause.pause.enter")
-	swap := manager.isPaused.CompareAndSwap(false, true)
+	swap := manager.state.CompareAndSwap(stateRunning, statePaused)
 	verifhook.At("pause.pause.cas", swap)
 	if !swap {
 		return
@@ -78,16 +87,11 @@ func Pause(message ...string) {
 // Resume reads from each subscriber's ResumeCh to unblock them.
 func Resume() {
 	verifhook.At("pause.resume.enter")
-	// Nothing is paused (unmatched call, or another controller already resumed):
-	// no subscriber will ever send on its ResumeCh, so do not wait for them.
-	if !manager.isPaused.Load() {
+	// Only one Resume() at a time collects the acknowledgements, and only when the pipeline is
+	// paused: otherwise no subscriber will ever send on its ResumeCh.
+	if !manager.state.CompareAndSwap(statePaused, stateResuming) {
 		return
 	}
-	// Another resume is already collecting the acknowledgements.
-	if !manager.isResuming.CompareAndSwap(false, true) {
-		return
-	}
-	defer manager.isResuming.Store(false)
 
 	var wg sync.WaitGroup
 	manager.subscribers.Range(func(key, _ interface{}) bool {
@@ -108,10 +112,7 @@ func Resume() {
 	wg.Wait()
 	verifhook.At("pause.resume.acked")
 
-	swap := manager.isPaused.CompareAndSwap(true, false)
-	if !swap {
-		return
-	}
+	manager.state.Store(stateRunning)
 	manager.message = ""
 
 	stats.PausedReset()
@@ -119,7 +120,7 @@ func Resume() {
 }
 
 func IsPaused() bool {
-	return manager.isPaused.Load()
+	return manager.state.Load() != stateRunning
 }
 
 func GetMessage() string {
